@@ -345,7 +345,9 @@ def scenario(sc, tmproot, chooser_factory):
             d = det_by.get(did)
             ok = d is not None
             if tag == "DET":
-                ok = ok and rest == " (start: {:.3f}, end: {:.3f}, duration: {:.3f})".format(d.start, d.end, d.duration) and th == "tok"
+                # the duration is that of the region the observers receive (samples / rate), not whatever the worker's own record says
+                dur_ = len(detregs.get(did, b"")) / (sr * sw * ch)
+                ok = ok and rest == " (start: {:.3f}, end: {:.3f}, duration: {:.3f})".format(d.start, d.end, dur_) and th == "tok"
                 log.append([0, did, int(ok)])
                 continue
             if tag == "SAVE" and ok:
@@ -858,6 +860,8 @@ def rand_scenario(rng, tier, prop):
     if venergy and ch == 1:
         ch = 2
     if prop == "X03":
+        if rng.random() < .35:
+            sr, B = 8000, 100          # 12.5 ms windows: durations on third-decimal rounding boundaries (0.0375 s)
         kinds = [rng.choice(["regsave", "player", "command", "rec"]) for _ in range(rng.choice([1, 2, 3]))]
         for one in ("regsave", "player", "command"):
             if kinds.count(one) > 1:
